@@ -47,7 +47,7 @@ for d in sorted(glob.glob(SRC + "/C*/out/[ABC]")):
         "needs_to_manifest": m.get("needs"),
         "files": m.get("files"),
         "author": "fresh sub-agent given only the property text and a scratch worktree of /repo"
-        + (", the list of changes already studied for the property, and (adversarial rounds) a description of the testing envelope it should try to evade" if RND in ("2", "3", "4", "5") else ", and the one-line summaries of the changes already studied for the property (so that a round does not repeat an earlier one); nothing about the checks" if RND in ("6", "7", "8", "9", "10", "11", "12", "13", "14") else ""),
+        + (", the list of changes already studied for the property, and (adversarial rounds) a description of the testing envelope it should try to evade" if RND in ("2", "3", "4", "5") else ", and the one-line summaries of the changes already studied for the property (so that a round does not repeat an earlier one); nothing about the checks" if RND in ("6", "7", "8", "9", "10", "11", "12", "13", "14", "15") else ""),
         "confirmed_by_lead": {
             "how": "lib/seedtest.py: scratch worktree of /repo; `cargo test --offline --test demo` without and with the patch; `cargo test --offline` (84 unit tests + doctests) with the patch; then ./check <prop> --tier quick in a scratch copy of /verif whose harness points at the patched worktree",
             "demo_passes_on_unchanged_tree": res.get("demo_passes_unchanged"),
